@@ -4,9 +4,11 @@ from .progfam import *
 
 def run(tier, seed):
     return run_prog_property(
-        "C02", ["compile", "deep", "shared"], tier, seed,
+        "C02", ["compile", "deep", "shared", "witness"], tier, seed,
         rule="Same behaviours as C01 (the family binds every witness to a variable; in most programs at least one witness is "
              "never or only partly inspected). For every (program, debug mode, witness assignment): satisfy must succeed, "
              "redeem().cmr() = commit().cmr(), encode_to_vec() must be accepted by RedeemNode::decode with the same CMR, and "
-             "BitMachine::exec must not panic (on the decoded and on the original node).",
+             "BitMachine::exec must not panic (on the decoded and on the original node). The witness family (MC_Witness.tla) adds "
+             "the maps that are not type-correct assignments: undeclared names, re-typed / swapped / hidden-type values, "
+             "alone and combined - whenever satisfy ACCEPTS such a map (rightly or not) the same three clauses must hold.",
         assumptions=BASE_ASSUMPTIONS)
